@@ -168,3 +168,51 @@ def normalize_power(case, ctx):
     k = np.sqrt(p / np.sum(np.abs(a0) ** 2))
     if cm.max_abs(out - a0 * k) > 1e-12 * cm.max_abs(a0 * k):
         raise Violation("C05.normalize.shape", "normalize_power changed more than the scale")
+
+
+# --- long thin pupils (kernel element counts in the millions) ------------------------------------------------
+
+@st.composite
+def long_case(draw, tier="quick"):
+    m = draw(st.sampled_from([1023, 1024, 1101, 1500, 2047, 2048, 2049, 2600]))
+    os_ = draw(st.sampled_from([1, 1, 2, 3]))
+    k = draw(st.sampled_from([1, 2, 3, 4]))
+    Nr = (int(np.ceil(m * k / os_)) + draw(st.integers(0, 3))) * os_          # period on the long axis, multiple of os
+    floor_ = int(np.ceil(m / os_)) * os_
+    while Nr * m > 9_000_000 and Nr > floor_:
+        Nr = max(floor_, (Nr // 2 // os_ + 1) * os_)
+    n = draw(st.integers(2, 3))
+    Nc = (int(np.ceil(n / os_)) + draw(st.integers(0, 2))) * os_
+    return {"m": m, "n": n, "N": [Nr, Nc], "oversample": os_, "axis": draw(st.integers(0, 1)),
+            "seed": draw(st.integers(0, 2**31 - 1)), "power": draw(gen.pos_log(1e-3, 1e3))}
+
+
+@hyp("C05", "long", lambda tier: long_case(tier),
+     "pupils of 1023..2600 x 2..3 samples imaged over exactly one period (up to 9e6 kernel elements): the image "
+     "carries the input power", examples=(10, 40), budget_s=(150, 700))
+def long(case, ctx):
+    m, n, os_ = case["m"], case["n"], case["oversample"]
+    N = list(case["N"])
+    rng = np.random.default_rng(case["seed"])
+    amp = rng.uniform(0.2, 1.0, size=(m, n))
+    wl, z, dx = 1e-6, 2.0, 1e-3
+    opd = rng.normal(size=(m, n)) * 0.2 * wl
+    if case["axis"] == 1:
+        amp, opd, N = amp.T.copy(), opd.T.copy(), N[::-1]
+    with lentil_call("C05.long.normalize", "normalize_power"):
+        amp = lentil.normalize_power(amp, case["power"])
+    du = (wl * z * os_ / (dx * N[0]), wl * z * os_ / (dx * N[1]))
+    ctx.tag(f"axis:{case['axis']}", f"os:{os_}", "kernel>4M" if max(N) * m > 2**22 else "kernel<=4M",
+            "N_odd" if max(N) % 2 else "N_even")
+    ctx.nontrivial_if(True)
+    with lentil_call("C05.long", f"propagate_dft(pupil {amp.shape}, period {N}, os {os_})"):
+        w = lentil.Wavefront(wl) * lentil.Pupil(amplitude=amp, opd=opd, pixelscale=dx, focal_length=z)
+        I = lentil.propagate_dft(w, pixelscale=du, shape=(N[0] // os_, N[1] // os_), oversample=os_).intensity
+    p_in = float(np.sum(np.abs(amp) ** 2))
+    if I.shape != tuple(N):
+        raise Violation("C05.long.shape", f"image shape {I.shape}, expected {tuple(N)}")
+    if np.any(I < 0):
+        raise Violation("C05.nonnegative", "intensity has negative samples")
+    if abs(float(I.sum()) - p_in) > 1e-10 * p_in or abs(p_in - case["power"]) > 1e-12 * case["power"]:
+        raise Violation("C05.long.total", f"full-period image of a {amp.shape} pupil (period {N}, oversample {os_}) carries "
+                                          f"{float(I.sum()):.12e}, input power {p_in:.12e}")
